@@ -32,7 +32,7 @@ func (c20) ID() string { return "C20" }
 func (c20) Rule() string {
 	return "each run: 1..4 generated trees (regular strings) plus nil and a bare gRPC status error are registered with an Echo handler behind UnaryServerInterceptor on a real gRPC server " +
 		"over an in-memory network whose writes are fragmented by a function of (seed, direction, offset); 1..8 client goroutines issue 2..12 RPCs concurrently through UnaryClientInterceptor " +
-		"and through a client without it; for 1/6 of the RPCs the caller's context is ended between the arrival of the reply and its processing by the client interceptor; oracle per RPC: nil stays nil, status errors keep code and message, any other error observed at the client equals the same error transferred " +
+		"and through a client without it; a status error with details is among the handler errors; a third of the caller contexts carry log tags; a recovery middleware reports server-side panics; for 1/6 of the RPCs the caller's context is ended between the arrival of the reply and its processing by the client interceptor; oracle per RPC: nil stays nil, status errors keep code and message, any other error observed at the client equals the same error transferred " +
 		"directly with EncodeError/DecodeError (visible tree, Is row, accessors, %v, %+v, re-encoded bytes) and the plain client sees the code attached with WrapWithGrpcCode (Unknown otherwise); " +
 		"distinct = (shapes of the handler errors x number of clients x RPC assignment); non-trivial = at least one generated tree with >= 2 layers was transferred"
 }
